@@ -141,7 +141,8 @@ def run(chk, tier, seed, replay=None):
                 '(children park at file barriers until min(N,k) of them run at the same time, then each is released '
                 'once the parent has reaped the previous one), with -v 0 / 1 (deferred collector) and -vv (keep-alive '
                 'collector); plus the rendezvous schedule and a spawn failure; TLC compares block order, block content, '
-                'live children at every Spawn, totals and lists with the sequential run; distinct = distinct '
+                'live children at every Spawn, totals and lists with the sequential run, and validates the recorded Spawn / '
+                'Reaped sequence of every run as a behaviour of Parallel.tla itself (unlogged steps chosen by TLC); distinct = distinct '
                 '(k, N, finish order, verbosity)')
     chk.assumptions += ['"alive" is counted between the parent\'s Popen returning and its wait() returning (interposed)',
                         'progress at the same time is observed as min(N,k) children parked simultaneously; 60 s bound',
@@ -240,3 +241,62 @@ def run(chk, tier, seed, replay=None):
                           {'case': c, 'record': rec, 'stdout_tail': par['stdout'][-2500:],
                            'stderr_tail': par['stderr'][-1000:]})
     chk.extra['max_wall_s'] = max(p['wall'] for _s, p in results)
+    # I-spec trace validation: the parent's Spawn / Reaped events of every run
+    # must be a behaviour of Parallel.tla (unlogged steps chosen by TLC)
+    groups = {}
+    for c, (seq, par) in zip(cases, results):
+        if par['timed_out']:
+            continue
+        evs = sorted([e for e in par['events'] if e['e'] in ('Spawn', 'Reaped')], key=lambda e: e['seq'])
+        tr = []
+        for e in evs:
+            ci = int(abstract.layer_abstract_name(e['l'])[1:])
+            tr.append({'e': 'RP' if e['e'] == 'Reaped' else ('SF' if e.get('s') == 'fail' else 'SP'), 'c': ci})
+        fail = tuple(sorted({x['c'] for x in tr if x['e'] == 'SF'}))
+        groups.setdefault((c['k'], c['N'], fail), []).append({'id': c['id'], 'ev': tr})
+    # binding self-test: a corrupted trace (k + ... children spawned before any
+    # is reaped although N < k; a reap before its spawn) must be rejected
+    for (k, n, fail), trs in groups.items():
+        if not fail:
+            if n < k:
+                trs.append({'id': 'MUT-too-many-%d-%d' % (k, n),
+                            'ev': [{'e': 'SP', 'c': i} for i in range(1, k + 1)] +
+                                  [{'e': 'RP', 'c': i} for i in range(1, k + 1)]})
+            trs.append({'id': 'MUT-reap-first-%d-%d' % (k, n),
+                        'ev': [{'e': 'RP', 'c': 1}, {'e': 'SP', 'c': 1}] +
+                              [x for i in range(2, k + 1) for x in ({'e': 'SP', 'c': i}, {'e': 'RP', 'c': i})]})
+    accepted = set()
+    ntr = 0
+    for (k, n, fail), trs in sorted(groups.items()):
+        d = tempfile.mkdtemp(prefix='verif-parI-')
+        cfg = os.path.join(d, 'Trace_ParallelI.cfg')
+        with open(cfg, 'w') as f:
+            f.write('CONSTANTS K = %d N = %d L = 1 Deviations = {} DepC = 0 DepD = 0 FailSpawn = {%s}\n'
+                    'SPECIFICATION TSpec\nINVARIANT Accepted\nCHECK_DEADLOCK FALSE\n'
+                    % (k, n, ', '.join(map(str, fail))))
+        fd, path = tempfile.mkstemp(prefix='verif-parI-', suffix='.json')
+        with os.fdopen(fd, 'w') as f:
+            json.dump(trs, f)
+        try:
+            res = tlc.run('Trace_ParallelI', cfg, env={'TRACE_FILE': path}, timeout=1800)
+        finally:
+            os.unlink(path)
+            os.unlink(cfg)
+            os.rmdir(d)
+        chk.add_tlc('Trace_ParallelI k=%d N=%d fail=%s (%d traces)' % (k, n, list(fail), len(trs)), res)
+        accepted |= {v[1] for v in tlc.printed_tuples(res.out, 'ACCEPT')}
+        ntr += len(trs)
+    muts = [t['id'] for trs in groups.values() for t in trs if t['id'].startswith('MUT-')]
+    for m in muts:
+        if m in accepted:
+            chk.machinery('binding self-test: the corrupted trace %s was accepted by Parallel.tla' % m)
+    chk.extra['corrupted_traces_rejected'] = len([m for m in muts if m not in accepted])
+    ntr -= len(muts)
+    rejected = [t['id'] for trs in groups.values() for t in trs
+                if t['id'] not in accepted and not t['id'].startswith('MUT-')]
+    chk.extra['ispec_traces'] = ntr
+    chk.extra['ispec_traces_rejected'] = len(rejected)
+    if rejected:
+        # the I-spec does not explain the run although every clause of the
+        # property held: the spec has to be re-bound (DRIFT, not an alarm)
+        chk.notes.append('DRIFT: Parallel.tla admits no behaviour with the recorded Spawn / Reaped order of %s' % rejected[:8])
